@@ -9,7 +9,7 @@ META = {
                    "is decided by z3 for all values on that path",
     "bounds": {"split": "byte strings of length 0..6, 1..4 slice lengths each 0..len+1",
                "blocks": "identifier size 1..3, capacity 1..4, n 0..7, slack 0..2 bytes",
-               "ints": "widths 0..8 bytes, all values; xor operands up to 6 bytes"},
+               "ints": "widths 0..8 bytes (SX) and 0..4/0..16 bytes (BVX bit-vectors), all values; xor operands up to 4/16 bytes, second operand shorter or equal"},
     "outside_bounds": "longer strings / larger geometries (the code does not branch on content beyond the "
                       "all-zero test); bytes.fromhex / bytes.hex / str.encode are CPython builtins = environment",
     "stubs": ["bytes/str codec builtins in convert_database_keyword_to_bytes are replaced by an opaque injective "
@@ -186,6 +186,55 @@ def h_xor(P, S):
     return True
 
 
+def hb_xor(P, X):
+    """BVX: bytes_xor for all byte values; operand b may be shorter (prefix xor), involution"""
+    from toolkit.bytes_utils import bytes_xor
+    import z3
+    n, m = P["n"], P["m"]
+    a = X.bytes("a", n)
+    b = X.bytes("b", m)
+    c = X.call(bytes_xor, a, b)
+    if len(c) != n:
+        return False
+    conds = []
+    for i in range(n):
+        if i < m:
+            conds.append(X.eq(c[i], X.ref(lambda x, y: x ^ y, a[i], b[i])))
+        else:
+            conds.append(X.eq(c[i], a[i]))
+    back = X.call(bytes_xor, c, b)
+    return X.all(X.bytes_eq(back, a), *conds)
+
+
+def hb_int_roundtrip(P, X):
+    """BVX: int_to_bytes / int_from_bytes for all values at a width; too-narrow widths raise"""
+    from toolkit.bytes_utils import int_to_bytes, int_from_bytes
+    from bvx.api import Raised
+    w = P["w"]
+    x = X.int("x", 8 * w)
+    bs = X.call(int_to_bytes, x, w)
+    if len(bs) != w:
+        return False
+    y = X.call(int_from_bytes, bs) if not X.symbolic else None
+    conds = []
+    for i in range(w):
+        sh = 8 * (w - 1 - i)
+        import z3
+        conds.append(X.eq(bs[i], X.ref(lambda v, sh=sh: z3.LShR(v, sh) & 255, x)))
+    if w >= 1:
+        big = X.int("big", 8 * w + 4)
+        try:
+            X.call(int_to_bytes, big, w)
+            conds.append(X.ult(big, 1 << (8 * w)))
+        except Raised as r:
+            if not isinstance(r.exc, OverflowError):
+                return False
+            conds.append(X.not_(X.ult(big, 1 << (8 * w))))
+    if y is not None:
+        conds.append(y == x)
+    return X.all(*conds)
+
+
 # ---------------------------------------------------------------- database / output conversion (plumbing)
 class _OpaqueBytes:
     """stand-in for the builtin `bytes` inside toolkit.database_utils: records every conversion"""
@@ -297,6 +346,13 @@ def obligations(tier, seed):
     obs.append(twin("c17.ints.twin", "harness.c17", "h_ints", {"w": 2, "extra": 1, "twin": True}))
     for w in (range(0, 4) if tier == "quick" else range(0, 7)):
         obs.append(ob("c17.int_minimal.w%d" % w, "harness.c17", "h_int_minimal", {"w": w}))
+    for n in (range(0, 5) if tier == "quick" else range(0, 17)):
+        for m in sorted({0, n // 2, n}):
+            obs.append(ob("c17.xor.n%d.m%d" % (n, m), "harness.c17", "hb_xor", {"n": n, "m": m, "W": 16, "seed": seed},
+                          engine="bvx", selftest=5))
+    for w in (range(0, 5) if tier == "quick" else range(0, 17)):
+        obs.append(ob("c17.int_bvx.w%d" % w, "harness.c17", "hb_int_roundtrip", {"w": w, "W": 8 * w + 24, "seed": seed},
+                      engine="bvx", selftest=5))
     obs.append(ob("c17.convert_db", "harness.c17", "h_convert", {}))
     obs.append(twin("c17.convert_db.twin", "harness.c17", "h_convert", {"twin": True}))
     for n in (0, 1, 2):
